@@ -49,7 +49,7 @@ func main() {
 		}
 	}
 	t := time.Now()
-	res := lay.RunAll(jobs, runtime.NumCPU())
+	res := lay.RunAll(jobs, runtime.NumCPU(), 0, 0)
 	fmt.Fprintf(os.Stderr, "%d jobs in %v\n", len(jobs), time.Since(t))
 	stat := map[string]int{}
 	for i, r := range res {
